@@ -279,11 +279,13 @@ def r4_accidentals(ctx):
                     table[ch] = ''.join(ast.literal_eval(e.node.value) for e in adds) if adds else ''
     ctx.check(okt and table == {'+': '#', '-': '-', 'C': '', 'n': ''}, 'R4', acc.loc, acc.qualname, 'accidental-map',
               'accidentals(): + -> #, - -> -, nothing else', f'accidentals() maps {table}')
-    # alphabet agreement on the conversion path
+    # alphabet agreement on the conversion path (element-wise model of NoteRestToken.export, per feasible path)
+    from . import c01
     nrt = ctx.prog.func(f'{N.TOKENS}.NoteRestToken.export')
-    conv = [n for n in walk_local(nrt.node) if isinstance(n, ast.Call) and isinstance(n.func, ast.Name)
-            and n.func.id.startswith('convert_pitch_to_agnostic')]
-    ctx.expect_count('R4', 'call of the pitch conversion callback', len(conv), 1)
+    kw = nrt.node.args.kwarg.arg if nrt.node.args.kwarg else 'kwargs'
+    CB = f"{kw}.get('convert_pitch_to_agnostic')"
+    PD = 'self.pitch_duration_subtokens'
+    eps, _ = c01.export_joins(ctx, nrt)
     imp = ctx.prog.func(f'{N.PITCH}.HumdrumPitchImporter._parse_pitch')
     understood = set('abcdefgABCDEFG')
     for n in walk_local(imp.node):
@@ -294,62 +296,63 @@ def r4_accidentals(ctx):
                 pass
     alpha = {'PITCH': g.alphabet('diatonicPitchAndOctave'), 'ALTERATION': g.alphabet('alteration'), 'DURATION': g.alphabet('duration'),
              'DECORATION': {GR.ANY}, 'REST': {'r'}}
-    env = G.single_assignments(nrt.node)
-    for call in conv:
-        at = f'{nrt.module.relpath}:{call.lineno}'
-        arg = G.substitute(call.args[0], env) if call.args else None
+    conv_calls = {}
+    n_conv = 0
+    bad = []
+    for ep in eps:
+        calls = [p_ for p_ in ep.all_pieces() if p_.kind == 'call' and p_.text == CB]
+        for c in calls:
+            conv_calls.setdefault(src(c.node), (c, ep))
+        # whenever the callback is given and the token has pitch letters, the converted pitch is what is emitted
+        val = {}
+        fm = ep.cond
+        has_cb = _forced(fm, f'{CB} is None', False)
+        if not has_cb:
+            continue
+        text_path = not (len(ep.pieces) == 1 and ep.pieces[0].kind == 'const')
+        if not text_path:
+            continue
+        raw_pitch = [j for j in ep.joins(PD) if not _inside_call(ep, j, CB)
+                     and (not j.seq.category_tests() or 'PITCH' in j.seq.category_tests())]
+        if calls:
+            n_conv += 1
+            if raw_pitch:
+                bad.append('the kern pitch letters are emitted next to the converted pitch')
+        else:
+            # no conversion on this path: only legitimate when the path condition says there are no pitch letters
+            if 'TokenCategory.PITCH' not in G.show(fm):
+                bad.append('a path with a conversion callback never converts')
+            elif raw_pitch and not _pitch_known_empty(ep, PD):
+                bad.append('kern letters instead of the converted pitch on a path that has pitch letters')
+    ctx.expect_count('R4', 'call of the pitch conversion callback', len(conv_calls), 1)
+    for text, (c, ep) in conv_calls.items():
+        at = f'{nrt.module.relpath}:{c.node.lineno}'
         cats = set()
-        for sub in ast.walk(arg) if arg is not None else []:
-            if isinstance(sub, ast.Attribute) and isinstance(sub.value, ast.Name) and sub.value.id == 'TokenCategory' and sub.attr in alpha:
-                cats.add(sub.attr)
-        chars = set().union(*[alpha[c] for c in cats]) if cats else {GR.ANY}
+        unsel = False
+        for j in [p_ for p_ in c.walk() if p_.kind == 'join']:
+            t = j.seq.category_tests()
+            cats |= t
+            unsel = unsel or not t
+        chars = set().union(*[alpha.get(c_, {GR.ANY}) for c_ in cats]) if cats and not unsel else {GR.ANY}
         foreign = sorted(chars - understood)
-        ctx.check(bool(cats) and not foreign, 'R4', at, nrt.qualname, 'conversion-input-alphabet',
+        ctx.check(bool(cats) and not unsel and not foreign, 'R4', at, nrt.qualname, 'conversion-input-alphabet',
                   f'the string handed to the pitch conversion is built from {sorted(cats)} sub-tokens, whose grammar alphabet the Humdrum '
                   f'pitch importer understands',
-                  f'the string handed to the pitch conversion is built from {sorted(cats)} sub-tokens; the grammar lets them contain '
+                  f'the string handed to the pitch conversion is built from {sorted(cats) if not unsel else "ALL"} sub-tokens; the grammar lets them contain '
                   f'{foreign}, which HumdrumPitchImporter._parse_pitch counts as extra pitch LETTERS (octave = number of characters): '
                   f'`4cn` under G2 becomes `4cc` (octave changed, natural dropped), `4c#X` becomes `4cc#`')
         carried = 'ALTERATION' in cats
         if not carried:
-            # the alteration must be appended verbatim after the converted pitch
-            alt_names = set()
-            for a_ in walk_local(nrt.node):
-                if isinstance(a_, ast.Assign) and isinstance(a_.targets[0], ast.Name) and isinstance(a_.value, (ast.ListComp, ast.GeneratorExp)) \
-                        and 'TokenCategory.ALTERATION' in ' '.join(src(c) for c in a_.value.generators[0].ifs) \
-                        and src(a_.value.elt).endswith('.encoding'):
-                    alt_names.add(a_.targets[0].id)
-            carried = False
-            for b_ in walk_local(nrt.node):
-                if isinstance(b_, ast.BinOp) and isinstance(b_.op, ast.Add) and call in list(ast.walk(b_)):
-                    used = {x.id for x in ast.walk(b_) if isinstance(x, ast.Name)}
-                    if used & alt_names:
-                        carried = True
+            # the alteration must be emitted verbatim on every path that converts
+            carried = all(any('ALTERATION' in j.seq.category_tests() and src(j.seq.elt) == '_e.encoding' for j in e2.joins(PD))
+                          for e2 in eps if any(p_.kind == 'call' and p_.text == CB for p_ in e2.all_pieces()))
         ctx.check(carried, 'R4', at, nrt.qualname, 'alteration-carried',
                   'the accidental (ALTERATION sub-token) reaches the agnostic output',
                   'the ALTERATION sub-token is neither converted nor appended on the agnostic path: the accidental is lost')
-    # whenever the conversion produced a pitch, every exit of the export uses it (with or without a duration)
-    rets = symex.returns(nrt, limit=20000)
-    bad = []
-    n_conv = 0
-    cbcall = "kwargs.get('convert_pitch_to_agnostic')("
-    for cond, val, sp in rets:
-        conds = [(src(c), t) for c, t in sp.conds]
-        has_cb = any(s_ == "kwargs.get('convert_pitch_to_agnostic') is not None" and t for s_, t in conds) or \
-            any(s_ == "kwargs.get('convert_pitch_to_agnostic') is None" and not t for s_, t in conds)
-        no_pitch = any(('TokenCategory.PITCH' in s_ and not t and 'convert_pitch' not in s_) for s_, t in conds)
-        result_none = any(s_.startswith(cbcall) and s_.endswith('is not None') and not t for s_, t in conds) or \
-            any(s_.startswith(cbcall) and s_.endswith('is None') and t for s_, t in conds)
-        pitches_empty = any(s_.startswith('[s for s in') and 'TokenCategory.PITCH' in s_ and not t for s_, t in conds)
-        if has_cb and not no_pitch and not result_none and not pitches_empty:
-            n_conv += 1
-            if cbcall not in src(val):
-                bad.append([s_[:50] for s_, t in conds if 'DURATION' in s_ or 'duration' in s_][:1])
     ctx.check(not bad and n_conv > 0, 'R4', nrt.loc, nrt.qualname, 'agnostic-pitch-dropped-on-some-path',
               f'on every exit reached with a conversion callback and pitch letters the converted pitch is emitted ({n_conv} paths)',
-              f'some exit reached with a conversion callback and pitch letters emits the kern letters instead of the converted pitch '
-              f'(path conditions {bad[:2]}): notes without a duration (grace notes, stemless notes, exclude=[DURATION]) keep their kern '
-              f'pitch under every clef')
+              f'{"; ".join(sorted(set(bad))[:2])}: notes without a duration (grace notes, stemless notes, exclude=[DURATION]) keep their '
+              f'kern pitch under every clef')
     ae = ctx.prog.func(f'{N.TOKENIZERS}.AEKernTokenizer.tokenize')
     cb = ctx.prog.nested_functions(ae)
     okcb = False
@@ -359,6 +362,41 @@ def r4_accidentals(ctx):
         okcb = okcb or any(src(v) == f"pitch_to_gkern_string(PitchImporterFactory.create('kern').import_pitch({q}), clef)" for _, v, _ in rr)
     ctx.check(okcb, 'R4', ae.loc, ae.qualname, 'callback-shape',
               'the callback converts the sub-token text with the Humdrum importer and the clef in force')
+
+
+def _forced(fm, atom, value):
+    """The path condition `fm` forces `atom` to `value` (no satisfying valuation gives it the other value)."""
+    import itertools
+    ats = G.atoms_of(fm)
+    if atom not in ats:
+        return False
+    others = [a for a in ats if a != atom]
+    if len(others) > 14:
+        return False
+    for bits in itertools.product([False, True], repeat=len(others)):
+        v = dict(zip(others, bits))
+        v[atom] = not value
+        if G.evaluate(fm, v):
+            return False
+    return True
+
+
+def _inside_call(ep, join, text):
+    for p_ in ep.all_pieces():
+        if p_.kind == 'call' and p_.text == text and any(q is join for q in p_.walk()):
+            return True
+    return False
+
+
+def _pitch_known_empty(ep, source):
+    """The path condition contains the falsity of a selection of the PITCH sub-tokens of the list (`if pitch_encs:` not taken)."""
+    for node, truth in ep.sp.conds:
+        t = src(node)
+        if not truth and 'TokenCategory.PITCH' in t and source in t and 'convert_pitch_to_agnostic' not in t:
+            return True
+        if truth and 'TokenCategory.PITCH' in t and source in t and t.startswith('not ') and 'convert_pitch_to_agnostic' not in t:
+            return True
+    return False
 
 
 def r5_clefs(ctx):
